@@ -48,6 +48,12 @@ def mul (a b : Limbs) : Limbs := reduce (mulCore a b)
 def squareCore (x : Limbs) : Limbs := run Gen.Fe256.squareCore (zero4 ++ x)
 def square (x : Limbs) : Limbs := reduce (squareCore x)
 
+/-- `One()`, `Zero()`, `Set(x)` as the regenerated programs: the receiver's OLD fields are inputs, so a field
+    that the Go code forgets to write would survive into the result (`C18.oneP_spec` … prove it does not) -/
+def oneP (old : Limbs) : Limbs := run Gen.Fe256.one old
+def zeroP (old : Limbs) : Limbs := run Gen.Fe256.zero old
+def setP (old x : Limbs) : Limbs := run Gen.Fe256.set (old ++ x)
+
 def one : Limbs := [1, 0, 0, 0]
 def zero : Limbs := [0, 0, 0, 0]
 /-- `Set`: `*v = *x` -/
